@@ -91,7 +91,23 @@ class UnderConstruction(PyVal):
 
     ref: SV
     cls: ClassInfo
-    pending: dict[str, Any]
+
+    def pending(self, st: "State") -> dict[str, Any]:
+        return st.ghost.get("pending", {}).get(self.ref.z.get_id(), {})
+
+    def set_pending(self, st: "State", name: str, value: Any) -> None:
+        allp = dict(st.ghost.get("pending", {}))
+        mine = dict(allp.get(self.ref.z.get_id(), {}))
+        mine[name] = value
+        allp[self.ref.z.get_id()] = mine
+        st.ghost["pending"] = allp
+
+
+@dataclasses.dataclass
+class StarSeq(PyVal):
+    """``*seq`` argument whose sequence has symbolic length."""
+
+    seq: SV
 
 
 # ------------------------------------------------------------------ state
